@@ -283,6 +283,8 @@ pub struct Profile {
     pub key_server: [u32; 4],
     /// a neighbour task of the embedder takes the shared storage / app-set lock for a while
     pub neighbour_permille: u32,
+    /// the embedder's app list repeats an app id (with differing cohort / version)
+    pub dup_app_permille: u32,
 }
 
 impl Profile {
@@ -328,6 +330,7 @@ impl Profile {
             admin_reconfigs: 0,
             key_server: [80, 15, 3, 2],
             neighbour_permille: 0,
+            dup_app_permille: 0,
         }
     }
 }
